@@ -7,6 +7,8 @@ ops (one history = everything since the last `reset`), see go/cmd/c10/main.go:
   reset <attr> <old:0|1> <smart:0|1> <autofile:hex> <dir:hex>
   file <name:hex> <hex|absent>
   comment <ptt|bbs> <sysop|user> <userid:hex13> <reqname:hex28> <type:0..255> <text:hex> <ip:hex16> <mtime>
+  begin <id> <comment arguments>   phase A of a commenter that then waits on the article's lock ("started")
+  finish <id>                      its phase B, on whatever the index holds by now
   mark <type>
   dump
 -/
@@ -15,6 +17,8 @@ structure DSt where
   have_ : Bool
   cfg : Cfg
   st : St
+  /-- commenters between phase A and phase B: id, the article they hold (if the lookup finds one), their ticket -/
+  tickets : List (String × Option Bytes × Except Res Ticket) := []
 
 def fnvAdd (h : UInt64) (bs : List Nat) : UInt64 :=
   bs.foldl (fun h b => (h ^^^ b.toUInt64) * 1099511628211) h
@@ -107,18 +111,39 @@ def showRes : Res → String
   | .idxErr => "err:idx"
   | .osErr => "err:os"
 
+/-- the arguments of `comment` / `begin`. -/
+def parseComment (via lvl user req ct text ip mt : String) : Option Req :=
+  match parseHexStrict user, parseHexStrict req, parseNatMax ct 255, parseHexStrict text, parseHexStrict ip,
+        parseNatMax mt 2147483647 with
+  | some user, some req, some ct, some text, some ip, some mt =>
+    if user.length ≠ Gen.Comment.IDLEN + 1 || req.length ≠ Gen.RecFile.lenFilename || ip.length ≠ Gen.Comment.IPV4LEN + 1
+        || mt = 0 || text.length > 4096 || (via ≠ "ptt" && via ≠ "bbs") || (lvl ≠ "sysop" && lvl ≠ "user")
+        || (cstr user).isEmpty then none
+    else if via = "bbs" && (lvl ≠ "sysop" || user ≠ sysopID || !canonName req) then none
+    else some { user, name := req, ctype := ct, text, ip, time := timeToken, mtime := (mt : Int) }
+  | _, _, _, _, _, _ => none
+
+def showOutcome (st : St) (res : Res) : String :=
+  match res with
+  | .ok line idx =>
+    s!"ok line={toHex line} rec={idx}:{toHex (record st.dir.bytes dirSz (idx - 1))} mt=ok {stateStr st}"
+  | r => showRes r ++ " " ++ stateStr st
+
+def ticketId (s : String) : Bool :=
+  !s.isEmpty && s.length ≤ 8 && s.all (fun c => c.isDigit || c.isLower)
+
 def stepC10 (d : DSt) (ws : List String) : DSt × String :=
   match ws with
   | ["reset", a, o, s, auto, dir] =>
     match parseNatMax a 4294967295, parseBit o, parseBit s, parseHexStrict auto, parseHexStrict dir with
     | some attr, some old, some smart, some auto, some dir =>
-      if attr ||| attrAllowed ≠ attrAllowed || dir.length > 1048576 then (d, "bad-op")
+      if attr ||| attrAllowed ≠ attrAllowed || dir.length > 1048576 || !d.tickets.isEmpty then (d, "bad-op")
       else
         let st : St := { dir := ⟨true, dir⟩, files := autoFiles auto dir (dir.length / dirSz) [] }
-        ({ have_ := true, cfg := { attr, oldRecommend := old, smartMerge := smart }, st }, "ok " ++ stateStr st)
+        ({ have_ := true, cfg := { attr, oldRecommend := old, smartMerge := smart }, st, tickets := [] }, "ok " ++ stateStr st)
     | _, _, _, _, _ => (d, "bad-op")
   | ["file", n, c] =>
-    if !d.have_ then (d, "bad-op") else
+    if !d.have_ || !d.tickets.isEmpty then (d, "bad-op") else
     match parseHexStrict n with
     | some n =>
       if !safeName n then (d, "bad-op")
@@ -140,22 +165,32 @@ def stepC10 (d : DSt) (ws : List String) : DSt × String :=
     (d, d.st.files.foldl (fun acc e => acc ++ " " ++ toHex e.1 ++ "=" ++ toHex e.2) ("dir=" ++ toHex d.st.dir.bytes))
   | ["comment", via, lvl, user, req, ct, text, ip, mt] =>
     if !d.have_ then (d, "bad-op") else
-    match parseHexStrict user, parseHexStrict req, parseNatMax ct 255, parseHexStrict text, parseHexStrict ip,
-          parseNatMax mt 2147483647 with
-    | some user, some req, some ct, some text, some ip, some mt =>
-      if user.length ≠ Gen.Comment.IDLEN + 1 || req.length ≠ Gen.RecFile.lenFilename || ip.length ≠ Gen.Comment.IPV4LEN + 1
-          || mt = 0 || text.length > 4096 || (via ≠ "ptt" && via ≠ "bbs") || (lvl ≠ "sysop" && lvl ≠ "user")
-          || (cstr user).isEmpty then (d, "bad-op")
-      else if via = "bbs" && (lvl ≠ "sysop" || user ≠ sysopID || !canonName req) then (d, "bad-op")
-      else
-        let q : Req := { user, name := req, ctype := ct, text, ip, time := timeToken, mtime := (mt : Int) }
-        let (st, res) := recommend findLinear d.cfg d.st q
-        let out := match res with
-          | .ok line idx =>
-            s!"ok line={toHex line} rec={idx}:{toHex (record st.dir.bytes dirSz (idx - 1))} mt=ok {stateStr st}"
-          | r => showRes r ++ " " ++ stateStr st
-        ({ d with st }, out)
-    | _, _, _, _, _, _ => (d, "bad-op")
+    match parseComment via lvl user req ct text ip mt with
+    | none => (d, "bad-op")
+    | some q =>
+      let (st, res) := recommend findLinear d.cfg d.st q
+      ({ d with st }, showOutcome st res)
+  | ["begin", id, via, lvl, user, req, ct, text, ip, mt] =>
+    if !d.have_ then (d, "bad-op") else
+    match parseComment via lvl user req ct text ip mt with
+    | none => (d, "bad-op")
+    | some q =>
+      let target := (findLinear d.st.dir.bytes (d.st.dir.bytes.length / dirSz) q.name).map
+        (fun k => cstr ((record d.st.dir.bytes dirSz k).take Gen.RecFile.lenFilename))
+      if via ≠ "ptt" || !ticketId id || d.tickets.any (fun e => e.1 == id) || d.tickets.length ≥ 8
+          || (target.isSome && d.tickets.any (fun e => e.2.1 == target)) then (d, "bad-op")
+      else ({ d with tickets := d.tickets ++ [(id, target, phaseA findLinear d.cfg d.st q)] }, "started")
+  | ["finish", id] =>
+    if !d.have_ then (d, "bad-op") else
+    match d.tickets.find? (fun e => e.1 == id) with
+    | none => (d, "bad-op")
+    | some e =>
+      let tickets := d.tickets.filter (fun e => e.1 != id)
+      match e.2.2 with
+      | .error r => ({ d with tickets }, showOutcome d.st r)
+      | .ok t =>
+        let (st, res) := phaseB d.st t
+        ({ d with st, tickets }, showOutcome st res)
   | _ => (d, "bad-op")
 
 def main : IO Unit :=
